@@ -169,6 +169,60 @@ def TraitSet.copyOp {N : Type} (k : CopyKind) (o : TSObj α N) : Except Exc (TSO
     | .error e => .error e
     | .ok items => .ok { items := items, validator := o.validator, notifiers := [] }
 
+/-! ### The value of a `Set` trait: `TraitSetObject` -/
+
+/-- The two attributes of `self` that `TraitSetObject._validator` reads.
+`object`: `none` = no such attribute, `some alive` = a weakref to the owner
+(alive or dead) or the `lambda: None` put there by `__init__(…, object=None, …)`
+/ `__setstate__`.  `trait`: `none` = missing or `None` (after `__setstate__`),
+`some validateIsNone` = a CTrait whose `item_trait.validate` is / is not `None`. -/
+structure TSOSelf where
+  object : Option Bool
+  trait : Option Bool
+  deriving Repr, DecidableEq
+
+/-- `TraitSetObject._validator` (trait_set_object.py:486-523): validation is
+skipped only when `self` has no `object` attribute or no trait (or the item
+trait validates nothing); a dead or absent owner still validates, with
+`object = None`.  `inner ownerPresent` is the inner trait's `validate`. -/
+def TraitSetObject.validator (σ : TSOSelf) (inner : Bool → Callback α α) : Callback α α := fun n x =>
+  match σ.object, σ.trait with
+  | some alive, some validateIsNone => if validateIsNone then .ok x else inner alive n x
+  | _, _ => .ok x
+
+/-- The value of a `Set` trait on a live owner. -/
+def TSOSelf.live : TSOSelf := ⟨some true, some false⟩
+/-- `__deepcopy__` (:557-570): `TraitSetObject(self.trait, None, self.name, …)` keeps the trait, `object = lambda: None`. -/
+def TSOSelf.afterDeepcopy (σ : TSOSelf) : TSOSelf := { σ with object := some false }
+/-- The owner was garbage-collected: the weakref is dead. -/
+def TSOSelf.orphaned (σ : TSOSelf) : TSOSelf := { σ with object := σ.object.map fun _ => false }
+/-- `__setstate__` (:583-593, pickle and `copy.copy`): `object = lambda: None`, `trait = None`. -/
+def TSOSelf.afterSetstate : TSOSelf := ⟨some false, none⟩
+
+/-- A `TraitSetObject` as far as copying is concerned: its members, its own
+attributes, and the attributes of the object whose bound `_validator` is its
+`item_validator` (itself, except after `copy.copy`). -/
+structure TSOObj (α : Type) where
+  items : PSet α
+  self : TSOSelf
+  vself : TSOSelf
+
+/-- `__deepcopy__` (:557-570) builds a new `TraitSetObject(self.trait, None, …)`,
+whose constructor validates the members with the new object's validator;
+`copy.copy` and pickling go through `__reduce_ex__` / `__getstate__` /
+`__setstate__` (:572-602): the state keeps `item_validator` — the bound method
+of the original for `copy.copy`, of a restored (trait-less) original after a
+pickle round trip. -/
+def TraitSetObject.copyOp (inner : Bool → Callback α α) (k : CopyKind) (o : TSOObj α) : Except Exc (TSOObj α) :=
+  match k with
+  | .deepcopy =>
+    let σ' : TSOSelf := { object := some false, trait := o.self.trait }
+    match TraitSet.init (TraitSetObject.validator σ' inner) o.items with
+    | .error e => .error e
+    | .ok items => .ok { items := items, self := σ', vself := σ' }
+  | .copy => .ok { items := ofList o.items, self := .afterSetstate, vself := o.vself }
+  | .pickle => .ok { items := ofList o.items, self := .afterSetstate, vself := .afterSetstate }
+
 /-! ### Histories -/
 
 def TraitSet.next (v : Callback α α) (s : PSet α) (op : Op α) : PSet α :=
